@@ -69,6 +69,37 @@ pub fn cases(prop: &str, tier: Tier, seed: u64) -> Vec<CaseDesc> {
             out.extend(with_scenario(g("customs", 300, 10_000), "rt:emit,gc;cfg=10"));
             out.extend(with_scenario(g("stable", 300, 10_000), "rt:emit,gc;cfg=58"));
         }
+        "C05" => {
+            // valid corpus (completeness), feature probes, deep nesting, mutations (soundness + totality)
+            let mut base: Vec<String> = disk_corpus(true);
+            base.extend(corpus::probe_specs());
+            for (p, n) in [("full", if q { 1500 } else { 40_000 }), ("mvp", if q { 300 } else { 10_000 }), ("stable", if q { 400 } else { 10_000 }), ("customs", if q { 200 } else { 5_000 }), ("names", if q { 200 } else { 5_000 })] {
+                base.extend(crate::gen::gen_specs(p, seed, n));
+            }
+            for fname in FEATURE_NAMES {
+                base.extend(crate::gen::gen_specs(&format!("feature-{}", fname), seed, if q { 60 } else { 1500 }));
+            }
+            out.extend(with_scenario(base.clone(), "gate"));
+            for (kind, d) in [("block", 1000), ("block", 100_000), ("loop", 100_000), ("if", 100_000), ("mixed", 100_000), ("blockbr", 50_000)] {
+                out.push(CaseDesc { spec: format!("deep:{}:{}", kind, d), scenario: "gate".into() });
+            }
+            if !q {
+                for kind in ["block", "loop", "if", "mixed"] {
+                    out.push(CaseDesc { spec: format!("deep:{}:1000000", kind), scenario: "gate".into() });
+                }
+            }
+            let per_base = if q { 6 } else { 24 };
+            let mut rng = crate::rng::Rng::derive(seed, &[0xC05]);
+            for b in &base {
+                for _ in 0..per_base {
+                    let k = rng.below(crate::mutate::NUM_MUTATORS);
+                    out.push(CaseDesc { spec: format!("mut:{}:{}:{}", rng.below(1 << 30), k, b), scenario: "gate".into() });
+                }
+            }
+            for i in 0..(if q { 2000 } else { 50_000 }) {
+                out.push(CaseDesc { spec: format!("rand:{}:{}", seed.wrapping_add(i), i % 64), scenario: "gate".into() });
+            }
+        }
         "C08" => {
             out.extend(with_scenario(disk_corpus(false), "rt:emit,emit2,fix,shift"));
             for (p, nq, nt) in [("full", 1500, 80_000), ("customs", 800, 30_000), ("names", 800, 30_000), ("gcgraph", 500, 20_000)] {
